@@ -43,11 +43,14 @@ type env struct {
 	TZ   string `json:"tz"`
 	Lead int64  `json:"lead"`
 	Kind string `json:"kind"`
+	// reproduction of a recorded behaviour: start at exactly this block time (unix seconds) instead
+	At int64 `json:"at"`
 }
 
 type line struct {
 	TZ    string `json:"tz,omitempty"`
 	Start string `json:"start,omitempty"`
+	At    int64  `json:"at,omitempty"`
 	Ev    string `json:"ev"`
 	Beh   int    `json:"beh"`
 	Gap   int64  `json:"gap"`
@@ -126,7 +129,18 @@ func untilTransition(from time.Time, loc *time.Location, kind string, lead int64
 			spring := off > prev
 			prev = off
 			if (kind == "spring") == spring {
-				target := tt.Add(-time.Duration(lead) * 24 * time.Hour)
+				// exact instant of the transition (to the second), so that a behaviour is placed identically
+				// relative to it whatever the current time of day of the chain is (reproductions must agree)
+				lo, hi := tt.Add(-time.Hour).Unix(), tt.Unix()
+				for hi-lo > 1 {
+					mid := (lo + hi) / 2
+					if _, o := time.Unix(mid, 0).In(loc).Zone(); o == off {
+						hi = mid
+					} else {
+						lo = mid
+					}
+				}
+				target := time.Unix(hi, 0).Add(-time.Duration(lead) * 24 * time.Hour)
 				if target.After(from) {
 					return target.Sub(from)
 				}
@@ -186,7 +200,13 @@ func TestDrive(t *testing.T) {
 			t.Fatalf("time zone %q: %v", ev.TZ, lerr)
 		}
 		time.Local = loc // what a node started with TZ=<zone> has
-		if ev.Kind != "" {
+		if ev.At > 0 {
+			if dt := time.Unix(ev.At, 0).Sub(w.c.TS.BlockTime()); dt > 0 {
+				if p, msg := w.c.NextBlock(dt); p {
+					t.Fatalf("placing behaviour %d: %s", bi, msg)
+				}
+			}
+		} else if ev.Kind != "" {
 			if dt := untilTransition(w.c.TS.BlockTime(), loc, ev.Kind, ev.Lead); dt > 0 {
 				if p, msg := w.c.NextBlock(dt); p {
 					t.Fatalf("placing behaviour %d: %s", bi, msg)
@@ -199,7 +219,7 @@ func TestDrive(t *testing.T) {
 		// relative clock of this behaviour: the spec starts at now = 1
 		base := ts.BlockTime().UTC().Unix() - 1
 		d0, mc0 := w.read(delegator, base)
-		_ = enc.Encode(line{TZ: ev.TZ, Start: ts.BlockTime().UTC().Format(time.RFC3339), Ev: "reset", Beh: bi, OK: true, Now: ts.BlockTime().UTC().Unix() - base, D: d0, MC: mc0})
+		_ = enc.Encode(line{TZ: ev.TZ, Start: ts.BlockTime().UTC().Format(time.RFC3339), At: ts.BlockTime().Unix(), Ev: "reset", Beh: bi, OK: true, Now: ts.BlockTime().UTC().Unix() - base, D: d0, MC: mc0})
 		for _, s := range beh {
 			ln := line{Ev: s.Op, Beh: bi, Gap: s.Gap, Arg: s.Arg}
 			if s.Gap > 0 {
